@@ -321,7 +321,7 @@ C02_NoSupportedAlgorithm(o) ==
 \* the store can provide, no extension request, no store fault, not cancelled).
 C02_SupportedListAccepted(o) ==
     (IsMc(o) /\ o.b.api \in {"ctap2", "trait"} /\ Ends(o) # <<>> /\ FirstSupported(Req(o).algs) = "ES256"
-        /\ ConsentGiven(o) /\ NoFaults(o) /\ ~ExcludeHit(o) /\ ~Req(o).pinAuth
+        /\ ConsentGiven(o) /\ NoFaults(o) /\ ~ExcludeHit(o) /\ ~ErrIs(o, 25) /\ ~Req(o).pinAuth      \* (a wrong "excluded" is C05's)
         /\ ~(Req(o).rk /\ o.cfg.disc = "nondisc") /\ ~Req(o).prf.given /\ Req(o).hs = "absent") => EndOk(o)
 
 C03_Assertion(o) ==
